@@ -277,7 +277,7 @@ Proof.
     + rewrite Hx1 in Hx'. injection Hx' as <-. congruence.
     + rewrite Hx1 in Hx'. injection Hx' as <-. split; [reflexivity|].
       destruct Hc as [(from & r & -> & Hf)|(from & sb & -> & Hsb & Hf)]; [left; eauto|right; left; eauto].
-  - exfalso. injection Hstep as <-. destruct (fold_pchange_fields cs (clear_events s)) as (G1 & _). rewrite G1 in Hx'. simpl in Hx'.
+  - exfalso. destruct (forallb pchange_valid _); [|discriminate]. injection Hstep as <-. destruct (fold_pchange_fields cs (clear_events s)) as (G1 & _). rewrite G1 in Hx'. simpl in Hx'.
     rewrite Hx in Hx'. injection Hx' as <-. congruence.
   - destruct (end_block _) as [y| |] eqn:H; try discriminate. injection Hstep as <-.
     destruct (end_block_sess_fate (clear_events s) y id x (life_clear _ Hl) H Hx) as [F|[(F1 & F2 & F3)|(F1 & F2 & F3)]]; simpl in *.
@@ -298,7 +298,7 @@ Proof.
     destruct (handle _ m) as [y| |] eqn:H; try discriminate. injection Hstep as <-.
     destruct (handle_sess (clear_events s) m y id x (kinv_clear _ Hi) ltac:(eapply idx_sess_frame; [..|exact Hix]; reflexivity) H Hx)
       as [(x1 & Hx1 & _)|(_ & Hx1 & _)]; rewrite Hx1 in Hnone; discriminate.
-  - exfalso. injection Hstep as <-. destruct (fold_pchange_fields cs (clear_events s)) as (G1 & _). rewrite G1 in Hnone. simpl in Hnone.
+  - exfalso. destruct (forallb pchange_valid _); [|discriminate]. injection Hstep as <-. destruct (fold_pchange_fields cs (clear_events s)) as (G1 & _). rewrite G1 in Hnone. simpl in Hnone.
     rewrite Hx in Hnone. discriminate.
   - destruct (end_block _) as [y| |] eqn:H; try discriminate. injection Hstep as <-.
     destruct (end_block_sess_fate (clear_events s) y id x (life_clear _ Hl) H Hx) as [F|[(F1 & F2 & F3)|(F1 & F2 & F3)]]; simpl in *.
@@ -322,7 +322,7 @@ Proof.
     destruct (handle_sess (clear_events s) m y id x (kinv_clear _ Hi) ltac:(eapply idx_sess_frame; [..|exact Hix]; reflexivity) H Hx)
       as [(x1 & Hx1 & Hst & Hiat)|(Hact & _)]; [|congruence].
     rewrite Hx1 in Hx'. injection Hx' as <-. split; [congruence|]. apply Hiat. congruence.
-  - injection Hstep as <-. destruct (fold_pchange_fields cs (clear_events s)) as (G1 & _). rewrite G1 in Hx'. simpl in Hx'.
+  - destruct (forallb pchange_valid _); [|discriminate]. injection Hstep as <-. destruct (fold_pchange_fields cs (clear_events s)) as (G1 & _). rewrite G1 in Hx'. simpl in Hx'.
     rewrite Hx in Hx'. injection Hx' as <-. auto.
   - destruct (end_block _) as [y| |] eqn:H; try discriminate. injection Hstep as <-.
     destruct (end_block_sess_fate (clear_events s) y id x (life_clear _ Hl) H Hx) as [F|[(F1 & _)|(_ & _ & F3)]]; simpl in *.
